@@ -10,6 +10,7 @@ import CtrlVerif.Driver.Margins
 import CtrlVerif.Driver.IC
 import CtrlVerif.Driver.MatEqn
 import CtrlVerif.Driver.TimeResp
+import CtrlVerif.Driver.TimeRespTF
 import CtrlVerif.Driver.Eval
 import CtrlVerif.Driver.Canon
 import CtrlVerif.Driver.IOSys
@@ -36,6 +37,7 @@ def dispatch (line : String) : String :=
   | "ic" :: rest => IC.handle rest
   | "mateqn" :: rest => MatEqn.handle rest
   | "tr" :: rest => TimeResp.handle rest
+  | "trtf" :: rest => TimeRespTF.handle rest
   | "ev" :: rest => Eval.handle rest
   | "c15" :: rest => Canon.handle rest
   | "io" :: rest => IO.handle rest
